@@ -497,7 +497,7 @@ pub fn all_moves(v: &[Action]) -> bool {
     r
 }
 
-// @obl props=C01,C07,C19 tier=quick kind=harness-contract mem=4 est=60
+// @obl props=C01,C07,C19 tier=quick kind=harness-contract mem=10 est=60 timeout=1500
 // @fns GameState::extend_with_pull_piece_actions GameState::lesser_pieces GameState::opponent_piece_mask shift_pieces_in_direction shift_pieces_in_opp_direction Square::from_bit_board PushPullState::as_possible_pull
 // @clause requires board_wf, wf_status. ensures (real Vec, <= 4 entries): started from an empty list the result contains Move(i,d) <=> status is PossiblePull(psq,pt) and pull_complete(psq,pt,i,d) = strictly weaker enemy on i steps into the vacated square; no duplicates; only Moves; at most 4
 #[kani::proof]
@@ -522,7 +522,7 @@ fn c01_gen_pull() {
     assert!(has_move_in(&v, i, d) == spec, "C01: offered pull completions == legal pull completions");
     assert!(count_move_in(&v, i, d) <= 1, "C01: no pull completion listed twice");
 }
-// @obl props=C01,C19 tier=quick kind=harness-contract mem=4 est=60
+// @obl props=C01,C19 tier=quick kind=harness-contract mem=10 est=60 timeout=1500
 // @fns GameState::extend_with_pull_piece_actions
 // @clause de-duplication: when the list already holds one Move (e.g. the same step offered as a push start) the pull generator appends a completion only if it is not that action, keeps the prefix, and never duplicates
 #[kani::proof]
